@@ -271,11 +271,143 @@ func c04FixedReads(info *types.Info, fds []*ast.FuncDecl) map[types.Object][]c04
 					break
 				}
 			}
+			if !rd.plus1 {
+				// `v := conv(read)` followed by `v + 1` at its uses: the
+				// correction is applied where the value is consumed
+				if v := c04DefinedVar(info, stack); v != nil {
+					plus, _ := c04UsesOf(info, fd, v)
+					rd.plus1 = plus > 0
+				}
+			}
 			out[obj] = append(out[obj], rd)
 			return true
 		})
 	}
 	return out
+}
+
+// c04DefinedVar: the local variable a read on top of the stack initialises
+// through conversions only (`v := int(read)`), or nil.
+func c04DefinedVar(info *types.Info, stack []ast.Node) *types.Var {
+	i := len(stack) - 2
+	for ; i >= 0; i-- {
+		switch x := stack[i].(type) {
+		case *ast.ParenExpr:
+			continue
+		case *ast.CallExpr:
+			if tv, ok := info.Types[x.Fun]; ok && tv.IsType() {
+				continue
+			}
+			return nil
+		case *ast.AssignStmt:
+			if len(x.Lhs) != 1 || len(x.Rhs) != 1 {
+				return nil
+			}
+			id, ok := x.Lhs[0].(*ast.Ident)
+			if !ok {
+				return nil
+			}
+			v, _ := info.ObjectOf(id).(*types.Var)
+			if v == nil || v.IsField() || v.Parent() == v.Pkg().Scope() {
+				return nil
+			}
+			return v
+		default:
+			return nil
+		}
+	}
+	return nil
+}
+
+// c04UsesOf counts the uses of v under a `+ 1` and lists the uses that hand
+// the uncorrected value on: a call argument, a store into a field or element,
+// a returned value. Comparisons and other arithmetic are not consumers.
+func c04UsesOf(info *types.Info, fd *ast.FuncDecl, v *types.Var) (plus int, raw []token.Pos) {
+	var stack []ast.Node
+	ast.Inspect(fd.Body, func(n ast.Node) bool {
+		if n == nil {
+			stack = stack[:len(stack)-1]
+			return true
+		}
+		stack = append(stack, n)
+		id, ok := n.(*ast.Ident)
+		if !ok || info.Uses[id] != v {
+			return true
+		}
+		var child ast.Node = id
+		for i := len(stack) - 2; i >= 0; i-- {
+			switch x := stack[i].(type) {
+			case *ast.ParenExpr:
+				child = x
+				continue
+			case *ast.BinaryExpr:
+				if x.Op == token.ADD {
+					if c, ok := c04ConstInt(info, x.Y); ok && c == 1 {
+						plus++
+					} else if c, ok := c04ConstInt(info, x.X); ok && c == 1 {
+						plus++
+					}
+				}
+			case *ast.CallExpr:
+				if tv, ok := info.Types[x.Fun]; ok && tv.IsType() {
+					child = x
+					continue
+				}
+				if child != x.Fun {
+					raw = append(raw, id.Pos())
+				}
+			case *ast.ReturnStmt:
+				raw = append(raw, id.Pos())
+			case *ast.AssignStmt:
+				for j, rhs := range x.Rhs {
+					if rhs != child || j >= len(x.Lhs) {
+						continue
+					}
+					switch ast.Unparen(x.Lhs[j]).(type) {
+					case *ast.SelectorExpr, *ast.IndexExpr:
+						raw = append(raw, id.Pos())
+					}
+				}
+			}
+			break
+		}
+		return true
+	})
+	return
+}
+
+// c04UncorrectedConsumers: a cardinality read that is corrected by `+ 1` at
+// some uses of its variable must not reach a consumer without it.
+func c04UncorrectedConsumers(info *types.Info, fds []*ast.FuncDecl) (vars int, raw []token.Pos) {
+	for _, fd := range fds {
+		var stack []ast.Node
+		ast.Inspect(fd.Body, func(n ast.Node) bool {
+			if n == nil {
+				stack = stack[:len(stack)-1]
+				return true
+			}
+			stack = append(stack, n)
+			c, ok := n.(*ast.CallExpr)
+			if !ok || len(c.Args) != 1 {
+				return true
+			}
+			fn := core.CalleeOf(info, c)
+			if fn == nil || fn.Pkg() == nil || fn.Pkg().Path() != "encoding/binary" || !strings.HasPrefix(fn.Name(), "Uint") {
+				return true
+			}
+			v := c04DefinedVar(info, stack)
+			if v == nil {
+				return true
+			}
+			plus, rw := c04UsesOf(info, fd, v)
+			if plus > 0 {
+				vars++
+				raw = append(raw, rw...)
+			}
+			return true
+		})
+	}
+	return
 }
 
 // c04Multipliers: constant factors applied to the container count or to a
@@ -646,6 +778,17 @@ func c04Layout(p *core.Program, r *core.Report) {
 			}
 		}
 		return best
+	}
+	for _, g := range []struct {
+		name string
+		fds  []*ast.FuncDecl
+	}{{"UnmarshalBinary", offA}, {"officialRoaringIterator", offB}} {
+		nv, raw := c04UncorrectedConsumers(info, g.fds)
+		if len(raw) == 0 {
+			r.HoldAt("R2", g.name+" cardinality correction", p.Pos(g.fds[0].Pos()), fmt.Sprintf("%d separately corrected cardinality variable(s); none reaches a call, field or return uncorrected", nv))
+		} else {
+			r.Violate("R2", g.name+" cardinality correction", p.Pos(raw[0]), "the stored cardinality-minus-one is corrected by +1 at some uses but handed on uncorrected here: the consumer (container typing, sizes) sees N-1 and the boundary cardinality decodes as the wrong container type")
+		}
 	}
 	a, b := pick(offA), pick(offB)
 	if a == nil || b == nil {
